@@ -36,6 +36,8 @@ def handleIns (st : St) (op : String) (j : Json) : Option (D (St × Json)) :=
       return (st, Json.mkObj [("ok", Json.bool (insertGuard S d p n && textStableC S)),
         ("boundary", Json.bool boundary), ("inside", Json.bool (insideTextGuard S d p [n])), ("marks", Json.bool marks),
         ("trivial", Json.bool trivial), ("stripped", eNode (strippedAt S d p n)), ("ts", Json.bool (textStableC S)),
+        -- `insertPoint_insert_marked_top`: a top-level insert point whose parent does not allow the node's marks
+        ("top", Json.bool (topBoundary S d p)),
         -- the hypothesis of `insertPoint_insert_succeeds_marked_partial`, on the model's Fitter
         ("fit", Json.bool (match replaceStep S d p p ⟨[n], 0, 0⟩ with
           | .ok (some (.replace f t sl false)) => f == p && t == p && sl == ⟨[strippedAt S d p n], 0, 0⟩
